@@ -660,6 +660,12 @@ func (e *evalEnv) sel(n *Node) *Val {
 func (e *evalEnv) index(n *Node) *Val {
 	x := e.eval(n.Args[0])
 	i := e.intOf(e.eval(n.Args[1]))
+	if x.St != nil && (isSliceT(x.T) || isStringT(x.T)) {
+		// the result of a method call (an accessor that converts or copies): its elements live in the state after that call
+		save := e.st
+		e.st = x.St
+		defer func() { e.st = save }()
+	}
 	switch {
 	case isSliceT(x.T):
 		et := elemOf(x.T)
